@@ -54,6 +54,21 @@ CHECKS = {
                      'member of every connected group back to OPERATION with no job pending',
                 note='bounded liveness: K=12 rounds (36 before a report); quick tier evaluates the closure on every state '
                      'reached by a deviation/fault/request and on terminal states, thorough on every state'),
+    'C09': dict(engine='E1-cluster', category='model_checking', technique=E1 + ' + fair-closure bounded liveness',
+                ref='DESIGN.md section 4, C09',
+                text='stop_application / stop_process / restart_application and supvisors.restart / shutdown on Master or slave are '
+                     'explored over rules with stop sequences at both levels, processes stopping promptly / slowly / never, loss of '
+                     'a non-Master; every stop request and final Supervisor order is judged against true process states and the '
+                     'sender\'s view; the closure checks exactly one order per live Supervisor and FINAL everywhere',
+                note='N=2 (3 for the loss scenario); branches on which the SHUTDOWN-strategy finding of C02 fires are cut'),
+    'C10': dict(engine='E1-cluster', category='model_checking', technique=E1 + ' + worst-case closure bounded liveness',
+                ref='DESIGN.md section 4, C10',
+                text='start and stop jobs are explored with processes that never spawn, stay STARTING / STOPPING, back off '
+                     'repeatedly, with delayed events and lost targets, for startsecs / stopwaitsecs in {1,6,11}; from every '
+                     'explored state a closure in which no process event is produced any more must end every job within '
+                     'B = (2 + ceil(secs/5) + inactivity_ticks + 2) rounds per sequence step, with FATAL / STOPPED and a reason '
+                     'shown on every live instance',
+                note='the wait_exit program that never exits (documented exception) is not exercised'),
     'C11': dict(engine='E2-seq', category='exploration', technique=E2, ref='DESIGN.md section 4, C11',
                 text='every sequence (to the depth bound, or to the fixpoint of the product state space) of snapshots, '
                      'events, losses, removals and forced states over 2-3 instances is applied to the real ProcessStatus '
